@@ -241,9 +241,10 @@ DURS = [F(1), F(2), F(1, 2), F(3, 2), F(3)]
 
 
 class G:
-    def __init__(self, rng, malformed=0.04):
+    def __init__(self, rng, malformed=0.04, awrap=0.12):
         self.rng = rng
         self.malformed = malformed
+        self.awrap = awrap
 
     def time_expr(self, idxs):
         r = self.rng.random()
@@ -294,6 +295,19 @@ class G:
         if may_zero and self.rng.random() < 0.25:
             dur = e_c(0)
             func_ok = False
+        if d > 0 and self.rng.random() < self.awrap:
+            # round 4: a wrapper that answers _is_atomic() = True around an atomic part (inside an atomic composite its
+            # get_measurement_windows / build_waveform are used instead of _internal_create_program)
+            how = self.rng.choice(['rev', 'rev', 'pass', 'single'])
+            inner = self.atomic(chs, idxs, dur, d - 1, may_zero and how != 'rev', func_ok)
+            if how == 'rev' and dur != e_c(0) and any(a['dur'] == e_c(0) for a in _atoms(inner)):
+                how = 'pass'     # a non-playing part below a reversed composite: AtomicMultiChannelPT.duration is its
+                                 # FIRST part's (C04's business); the mirror axis would not be the waveform's duration
+            if how == 'rev':
+                return {'k': 'rev', 'body': inner}
+            if how == 'pass':
+                return {'k': 'pass', 'how': 'par' if 'A' in chs and self.rng.random() < 0.5 else 'mul', 'body': inner}
+            return inner if inner['k'] == 'single' else {'k': 'single', 'body': inner}
         r = self.rng.random()
         if d <= 0 or r < 0.4:
             return self.atom(chs, idxs, dur, func_ok)
@@ -609,10 +623,11 @@ def gen_cases(rng, tier, ctx):
             cases.append(dict(c, side='model'))
         else:
             cases.append(c)
+    cases.extend(R4.gen_awrap(rng, g, C) for _ in range(60 if tier == 'quick' else 2000))
     for _ in range(40 if tier == 'quick' else 1500):
         cases.append(R4.gen_loop_edit(rng, g if rng.random() < 0.5 else gc))
     cases.extend(R4.enum_loop_empty())
-    enum4 = R4.enum_coincide(C) + R4.enum_context(C) + R4.enum_loop_coincide()
+    enum4 = R4.enum_coincide(C) + R4.enum_context(C) + R4.enum_loop_coincide() + R4.enum_awrap(C)
     if tier != 'thorough':
         rng.shuffle(enum4)
         enum4 = enum4[:110]
